@@ -32,19 +32,31 @@ PROP = dict(
                 "source as step lists and interpreted by the model; `spec_recognised` shows every expression of those steps has a meaning. Tie to the code: 23 "
                 "translator shape assertions pin the order validate < limit < load < engine < recovery(filter, truncate) < one AddEntry < nothing-found return "
                 "< stable re-sort < format switch, the colour helper and the NO_COLOR test; on every generated run the model's result block and history are "
-                "compared with the real binary's stdout bytes and history file, and independent monitors evaluate the property on the real outputs."),
+                "compared with the real binary's stdout bytes and history file, and independent monitors evaluate the property on the real outputs. "
+                "Props/C17b.lean: the JSON block is a JSON TEXT. With the string encoder fixed to `jsonStrModel` (Model/KeyJson.lean's model of encoding/json's "
+                "appendString with EscapeHTML on, shared with C05's cache key) and the float encoder only assumed to write number tokens (`NumOK`), the block "
+                "parses, completely, with the RFC 8259 recogniser of Model/JsonText.lean to one array with one object per printed result whose members are those of "
+                "`json_shape` by name and order and whose strings read back as the database text with every invalid byte replaced by U+FFFD (`json_wellformed`, "
+                "`json_text_of_items`, `json_object`; for ALL byte strings: quotes, backslashes, controls, <>&, U+2028/9, invalid UTF-8, any rune); the indentation "
+                "bytes and the json names come from the regenerated tables (`layout_ok`, `names_ok`). Tie: the driver renders every string with `jsonStrModel` (the "
+                "real json.Marshal renderings are compared with it line by line), checks `NumOK` on the real rendering of every printed score and parses its own "
+                "block back on every run; the block bytes are compared with the binary's stdout; the real blocks are judged by Python's parser and by Go's "
+                "encoding/json (tool c17jsonparse: valid, UTF-8, array of objects, one per result, strings round-trip)."),
     level_note=("PARTIAL. Outside the model: process start-up, cobra/pflag argument parsing and flag merging (only the shorthand-clash panic condition is "
-                "modelled), the terminal, encoding/json and strconv (string / number renderings enter as oracle values from the same tree), yaml.v3, the "
+                "modelled), the terminal, strconv and encoding/json's float encoder (number renderings enter as oracle values from the same tree; `NumOK`), yaml.v3, the "
                 "wall clock. Database text that contains ESC is printed raw by the list and table formats (hypothesis of `no_escapes`; generated, run and "
                 "counted as `esc-in-printed-field`). The table format cuts long commands / categories at a byte offset and may print invalid UTF-8 "
                 "(observed, counted as `table-cut-inside-rune`; not part of the property). Sub-commands other than search are exercised for termination and "
                 "absence of panics only (generated argument vectors, closed or piped stdin, timeout); their outputs are C08/C09/C16's subject. Text outside the "
                 "result block (preamble, loader / recovery warnings, suggestions, timing line) is not modelled: its wording is free, the monitors only require that it "
-                "carries no ESC when colour is off and the database has none. Well-formedness of the JSON text itself is encoding/json's; it is re-parsed on every run. "
+                "carries no ESC when colour is off and the database has none. Well-formedness of the JSON text is proved for the modelled string encoder (Props/C17b); "
+                "the recogniser rejects \\uD800..\\uDFFF escapes (never written by the encoder), so it accepts a subset of RFC 8259; a NaN / Inf score would make Encode fail and "
+                "print nothing (outside `NumOK`; engine scores are finite, C10). "
                 "With --format json and an empty answer the command prints its prose suggestions and no array (observed, not covered by the property's wording)."),
     design_ref="DESIGN.md section 6, C17",
     rule=("sessions of 3-7 `wtf [search]` runs sharing an isolated HOME: generated --database files (valid lists with duplicates, platform tags, ESC / newline / "
-          "quote / unicode / over-long fields; empty list; empty file; missing file; malformed or wrong-shaped YAML -> embedded fallback database; optional personal "
+          "quote / unicode / over-long fields; texts that need every class of encoding/json escape: quotes, backslashes, <>&, U+2028/9, controls, DEL, runes outside the BMP, "
+          "invalid UTF-8 carried as !!binary scalars; one fixed session prints such an entry as JSON with and without -v; empty list; empty file; missing file; malformed or wrong-shaped YAML -> embedded fallback database; optional personal "
           "notebook) x queries (words of the database, misspellings, recovery-only fragments, nothing-found, rejected: empty / metacharacters / too long / "
           "control-only; padded, multi-argument, unicode) x --limit {absent,0,1,2,3,5,100,101,-1} x --format {absent,list,table,json,JSON,Table,bogus,empty} x -v x "
           "--no-color / NO_COLOR (also set-but-empty) x --platform / -p / --all-platforms / --no-cross-platform, flag spellings (--k=v, -kv, before/after the query, "
@@ -53,8 +65,11 @@ PROP = dict(
           "distinct = distinct (database, argv, environment, history-before) tuples"),
     assumptions=["engine answers are sorted by score, non-increasing (C01; re-checked on every run: `hypothesis:answers-sorted`)",
                  "the engine returns at most Limit results (C01; re-checked on every run)",
-                 "no printed database field contains ESC (for `no_escapes`; violated on purpose by some generated databases, which are then only compared with the model)"],
-    trusted_extra=["cobra/pflag parsing and flag-set merging; encoding/json and strconv renderings (oracle values taken from the same tree); the harness tool c17expect"],
+                 "no printed database field contains ESC (for `no_escapes`; violated on purpose by some generated databases, which are then only compared with the model)",
+                 "`json_wellformed`: the string encoder is `jsonStrModel` (compared with json.Marshal on every printed string) and the float encoder writes number tokens "
+                 "(`NumOK`, checked by the driver on every printed score)"],
+    trusted_extra=["cobra/pflag parsing and flag-set merging; strconv / encoding/json float renderings (oracle values taken from the same tree; strings are modelled); "
+                   "the harness tools c17expect and c17jsonparse"],
 )
 
 THEOREMS = ["Wtf.C17." + t for t in (
